@@ -30,7 +30,8 @@ CHECKS["C04"] = dict(
          "one past each boundary, symbolic huge integers beyond 64/128 bits, empty / word-boundary byte strings, every Data "
          "constructor, wrong-typed constants, non-constant values) x force counts x semantics variants; TLC computes the "
          "expected result with the spec machine; every row is executed on the real machine twice (bare and inside another "
-         "program) and compared.",
+         "program) and compared. " 
+         "MC_Serialise states the CBOR bytes of serialiseData on a pool of Data values, with integers around 2^63 / 2^64 / 2^128 given by the bytes of their CBOR argument; replayed on data constants and through iData.",
     design_ref="DESIGN.md section 6 C04, section 4.1 MC_Builtin",
     note="Hashes, signatures, BLS arithmetic, expModInteger numerics and results beyond 2^30 are not computed by the spec "
          "(TLC has 32-bit integers, no crypto): for those rows only typing / arity / failure shape and absence of crashes are "
@@ -85,7 +86,8 @@ CHECKS["C01"] = dict(
          "them on Data arguments and every run is one event of a trace that the TLA+ trace specification Obs_Aiken accepts iff the "
          "observed value / abort is Eval's. TLC additionally enumerates operator families exhaustively (MC_AikenExpr: arithmetic "
          "incl. all floor division / modulo sign cases and division by zero, short-circuit && / || / and / or over aborting "
-         "operands, comparisons, let strictness) on an argument grid and every (expression, argument) pair is replayed.",
+         "operands, comparisons, let strictness) on an argument grid and every (expression, argument) pair is replayed. " 
+         "Directed families (tools/aikendirected.py: list-pattern shapes under expect x list lengths, casts from Data x ill-formed data, bindings used only by a trace, one constant three times per operand position for integer and byte-array builtins, Data parameters through function values, recursive functions with static / swapped / shadowed / functional parameters) are judged by Eval under silent and verbose tracing.",
     design_ref="DESIGN.md section 6 C01, section 4.6",
     note="Trusted: my reading of the language semantics; the python renderer (every rendered module is re-checked by the real type "
          "checker under its annotations). Strings only in trace; integers small; recursion fuel 60; programs the spec cannot judge "
@@ -99,7 +101,8 @@ CHECKS["C02"] = dict(
          "through the public pass functions; the replay must reproduce the real output bit for bit) and the final program are "
          "evaluated on the same arguments and must all agree (same value, or all fail); a panic anywhere is a violation. The "
          "pre-optimisation runs are additionally validated against Aiken.tla by Obs_Aiken, so the chain is anchored at the source "
-         "semantics.",
+         "semantics. " 
+         "The same directed families and a module of constants beyond a machine word go through the same stage chain.",
     design_ref="DESIGN.md section 6 C02",
     note="The `__no_inline__` marker lambdas the code generator leaves for the optimiser are erased before an intermediate program "
          "is evaluated (they are never applied; clean_up_no_inlines erases them). Both sides are evaluated by the real machine. "
@@ -111,7 +114,8 @@ CHECKS["C06"] = dict(
     text="Every module the real checker accepts is run on conforming arguments under silent and verbose tracing; Obs_Aiken (Aiken.tla) "
          "decides the expected outcome, so a failure must be one the source asks for, and any structural machine error class "
          "(TypeMismatch, NonFunctionalApplication, NonPolymorphicInstantiation, OpenTermEvaluated, MissingCaseBranch, NotAConstant...) "
-         "is a violation. A family of single-rule ill-typed mutants must be rejected by the checker.",
+         "is a violation. A family of single-rule ill-typed mutants must be rejected by the checker. " 
+         "A table of ill-typed modules (26 syntactic positions x type pairs, 12 kinds of misuse) must be rejected and their well-typed controls accepted; the directed families must not fail structurally.",
     design_ref="DESIGN.md section 6 C06",
     note="Type soundness of Aiken.tla itself is evidenced by the spec never getting stuck on accepted programs (stuck = 'unknown', "
          "counted). The reject side covers only the listed typing rules.",
@@ -120,7 +124,8 @@ CHECKS["C14"] = dict(
     category="model_checking",
     text="Aiken.tla's Eval has no tracing parameter. Each generated module is type-checked and compiled under all 9 Tracing values "
          "(3 scopes x 3 levels) and run on the same inputs: every run must be accepted by Obs_Aiken (equal to Eval) and the 9 runs of "
-         "each (program, input) must agree with each other.",
+         "each (program, input) must agree with each other. " 
+         "The directed families (all 9 settings) and a parameterised validator with typed redeemers / datums on conforming and near-miss script contexts are compared across the 9 settings as well.",
     design_ref="DESIGN.md section 6 C14",
     note="Trace arguments are literals in the generated programs; the compiler's erasure of trace-argument evaluation under "
          "compact/silent (DESIGN.md section 7 #12) is not yet exercised by this check.",
@@ -146,7 +151,8 @@ CHECKS["C07"] = dict(
          "discards) and decides from the semantic definition (Aiken.tla's Match over a complete value universe) the first unreachable "
          "clause, exhaustiveness, and for every value the first matching clause with its bindings in order. Each clause list is given "
          "to the real checker (verdict class must agree; every pattern it reports missing must denote an unmatched value) and, when "
-         "accepted, compiled and run on every value of the universe comparing clause index and bound values.",
+         "accepted, compiled and run on every value of the universe comparing clause index and bound values. " 
+         "Added universes: ListIntSmall (K = 3), TupListSmall (a list column beside a refutable column, K = 4), IntBig (literals beyond a machine word as placeholders).",
     design_ref="DESIGN.md section 6 C07",
     note="The usefulness algorithm itself is not transcribed (the checker is compared with the semantic definition directly). `as` "
          "patterns, alternatives and ByteArray literals are exercised by the C01 generator only. let / expect single-pattern forms are "
@@ -163,7 +169,8 @@ CHECKS["C16"] = dict(
          "best stays real and never longer); every first failing case in its bound plus random longer ones is shrunk by the real "
          "Counterexample::simplify driven by closure fuzzers mirroring the catalogue, and each run (query log, final choices, value) "
          "is validated by the trace spec Obs_Shrink: real counterexample, replays to its value, short-lex no larger than the first "
-         "failing case, every query answered truthfully, terminated; repeated runs give the same report.",
+         "failing case, every query answered truthfully, terminated; repeated runs give the same report. " 
+         "End to end: an authored project (corpus/c16_project: the catalogue's byte / pair / constant fuzzers x 6 properties x 3 expectations, and fuzzers whose evaluation fails) is run by the real test runner, twice per seed; each property test is an event for Obs_Shrink (WhyE2E).",
     design_ref="DESIGN.md section 6 C16, section 4.8",
     note="Fuzzers are abstract closures, not compiled Aiken fuzzers: PropertyTest::run's seed / label / iteration bookkeeping and the "
          "`fail` / `fail once` verdict inversion are stated in Shrink.tla (TestPasses) but not bound to the code by this check. The "
@@ -178,7 +185,8 @@ CHECKS["C18"] = dict(
          "must give once all parameters are applied (computed by Aiken.tla's Eval from the handler bodies, which the harness renders "
          "into the validator source). Every history is replayed through Blueprint::apply_parameter and serde: accept / refuse / never "
          "panic, remaining parameters, handlers in step, hash recomputed independently, code changes exactly on accepted applications, "
-         "and the fully applied code (through the blueprint, and by plain application to the original code) decides as the source says.",
+         "and the fully applied code (through the blueprint, and by plain application to the original code) decides as the source says. " 
+         "Other validators of the module whose names extend the target's must not change; the same histories run on the blueprint re-declared for Plutus V1 / V2 (hash for the declared version).",
     design_ref="DESIGN.md section 6 C18, section 4.10",
     note="Validators have three handlers with Data-typed arguments and minimal hand-made V3 script contexts. Addresses are not "
          "recomputed. One-by-one vs all-at-once application and apply_params_to_script (tx.rs) are not covered.",
@@ -192,7 +200,8 @@ CHECKS["C09"] = dict(
          "a dropped clone / continue on a clone, over functions referring to 0-3 shared module constants in different orders and a "
          "3-handler validator) is replayed on one real CodeGenerator under two tracing modes and each program is compared byte for byte "
          "with a fresh generator's. The project is also built repeatedly (in-process repeats with fresh hash seeds, separate processes, "
-         "1/4/16 rayon threads) and the blueprints must be identical.",
+         "1/4/16 rayon threads) and the blueprints must be identical. " 
+         "The corpus has 12 items (shared module constants, a 3-handler validator, two curried builtins hoisted to one scope, expect messages differing by white space only, mutual recursion, a generic function at two types, traces); a four-module project with equal validator names is built repeatedly and each validator built together must equal the validator built alone.",
     design_ref="DESIGN.md section 6 C09, section 4.7",
     note="Hash-map seed space, file discovery order and scheduling are sampled by repetition, not enumerated; permutations of module "
          "registration order are not covered. The comparison itself is byte equality.",
@@ -221,7 +230,8 @@ CHECKS["C13"] = dict(
          "Each tree is replayed: the real parser must read both renderings as the tree, the real formatter's output must be read as the "
          "tree again and formatting twice must change nothing. Beyond the fragment: the 167 shipped .ak files and seeded modules over the "
          "surface grammar go through parse -> format -> parse with syntax trees compared after erasing positions, comments and doc "
-         "comments compared in order, and idempotence.",
+         "comments compared in order, and idempotence. " 
+         "Fmt.tla also states calls, constructors (curly rule, punning) and captures (labelled holes). `aiken fmt` in place (format_files) is run on the corpus, the fixed inputs and a third of the generated modules.",
     design_ref="DESIGN.md section 6 C13",
     note="Only the operator / pipeline fragment has a TLA+ statement; records, patterns, definitions, literals, comments are covered by "
          "the round trip alone. Tree equality is modulo four layout-only differences listed in the evidence assumptions. Four recorded "
@@ -237,7 +247,8 @@ CHECKS["C19"] = dict(
          "given to eval_phase_two in three orders of resolved inputs / witness scripts / datums / body inputs / redeemer container. The "
          "verdict, the reported units (equal to the cost of running the script directly, for scripts that ignore their arguments) and the "
          "hand-over of the budget must be the specification's in every order. Picky scripts succeed only on their own redeemer, their own "
-         "datum and the right purpose, which binds the argument convention per language and the sorting of inputs, policies and accounts.",
+         "datum and the right purpose, which binds the argument convention per language and the sorting of inputs, policies and accounts. " 
+         "Scripts may sit in the witness set, on a reference input, on a spent input, or be missing; the thorough tier adds every transaction of 3 redeemers over a smaller catalogue.",
     design_ref="DESIGN.md section 6 C19",
     note="No cost models are supplied (the `aiken tx simulate` path). Certificates, votes, proposals, PlutusV1 and the time range are "
          "not exercised; the script context is not specified field by field. Which failure is reported when several are present is not "
@@ -250,7 +261,8 @@ CHECKS["C15"] = dict(
          "and prints programs as pieces; MC_Text enumerates one program per built-in name, per constant type and nesting, per string "
          "escape class, per Data tag range and per term constructor. For each, (a) the real parser on the SPECIFICATION's text must "
          "return the program (this binds the parser to the spec independently of the printer), (b) the real printer's text must parse "
-         "back to the program and (c) printing it again is a fixed point. Random programs beyond the tables go through (b) and (c).",
+         "back to the program and (c) printing it again is a fixed point. Random programs beyond the tables go through (b) and (c). " 
+         "Every string escape class also NESTED in a list / pair; integers beyond a machine word in constants and Data (placeholders substituted in term and text alike).",
     design_ref="DESIGN.md section 6 C15, section 4.4",
     note="BLS constants are not representable in the interchange format. The bare de Bruijn form (index-derived names) is not meant "
          "to be read back and is not checked. Parse is not specified as a function on arbitrary token sequences (that is C20).",
@@ -263,7 +275,8 @@ CHECKS["C08"] = dict(
          "computes the bytes for every program of the syntax tables (all built-ins, constant types and nestings, string classes, Data tag "
          "ranges, term constructors) plus chunk- and group-boundary cases; the real encoder must produce exactly these bytes (flat, CBOR, "
          "hex) and the three decoders must read the specification's bytes back to the program; named / fake-named forms must agree. Random "
-         "programs: to_flat -> from_flat -> to_flat is the identity. The blueprint / hash / save-load histories are C18's (MC_Blueprint).",
+         "programs: to_flat -> from_flat -> to_flat is the identity. The blueprint / hash / save-load histories are C18's (MC_Blueprint). " 
+         "Programs whose whole encoding is 23 / 24 / 255 / 256 bytes (CBOR header forms); the published hash must be the ledger hash for the declared Plutus version across load / save (v1, v2, v3).",
     design_ref="DESIGN.md section 6 C08, section 4.3",
     note="Foreign-but-valid Data encodings (definite arrays, chunked bytes, non-compact tags) are not generated; addresses are not "
          "recomputed. Hash = blake2b-224(version tag || code) is recomputed independently in C18.",
@@ -275,7 +288,8 @@ CHECKS["C20"] = dict(
          "huge numerals and deep nesting for the UPLC text parser; field-level mutations of a real blueprint for JSON loading; token-level "
          "mutations and deep nesting of generated Aiken sources for the lexer / parser / formatter. Every input runs under catch_unwind with "
          "a per-input time limit: a panic, a hang or a killed process is a violation, and whatever decodes must survive its own encode / "
-         "decode. Parameter validation / application on near-miss data is C12's and C18's (same call sites).",
+         "decode. Parameter validation / application on near-miss data is C12's and C18's (same call sites). " 
+         "Every single-bit flip of small encodings, integer literals rewritten with odd sign runs, hex fields of the blueprint at lengths around the expected one; an input that times out is retried alone with a long limit before it is reported.",
     design_ref="DESIGN.md section 6 C20",
     note="The expected Ok / Err class of a mutated input is not computed (Decode is not modelled): the oracle is 'value or error, no "
          "crash, no hang' plus self-consistency. config.rs (aiken.toml) is not exercised.",
